@@ -1,20 +1,24 @@
-"""What MANIFEST.json claims, per property (tools_manifest.py renders it)."""
+"""What MANIFEST.json claims, per property: collected from the REGISTRY dict of every
+harness/cXX.py (tools_manifest.py renders MANIFEST.json from it).  Modules must keep heavy
+imports (torch, stable_baselines3) inside functions so that importing them here is cheap."""
+import importlib
+import os
 
-_STD_NOTE = ("Trusted: Coq 8.16.1 kernel (vm_compute used, no native_compute), the fragment translator translate/py2coq.py and its specs, "
-             "the correspondence harness and Python/numpy/torch/gymnasium. Theorems are about the Gallina model; the model is tied to /repo on every run by "
-             "regenerated fragments (interface lemmas) and by differential execution. ")
+STD_NOTE = ("Trusted: Coq 8.16.1 kernel (vm_compute used, no native_compute), the fragment translator translate/py2coq.py and its specs, "
+            "the correspondence harness and Python/numpy/torch/gymnasium. Theorems are about the Gallina model; the model is tied to /repo on every run by "
+            "regenerated fragments (interface lemmas) and by differential execution. ")
 
-CHECKS = {
-    "C05": dict(
-        text=("Proof (unbounded): the backward GAE loop assembled from the statements regenerated from buffers.py equals the discounted-sum definition for every horizon, "
-              "cuts at episode boundaries, bootstraps from last_values, returns = advantage + value, environments are independent, and the minibatches of any pass over any "
-              "permutation partition the rollout for every batch size; flatten index law. Tie: fragment translator + correspondence on RolloutBuffer/DictRolloutBuffer."),
-        note=_STD_NOTE + "Not verified: float32 rounding (exact dyadic stream + rel 1e-4 stream), numpy broadcasting/reshape (correspondence only). All C05 theorems are closed under the global context.",
-        technique="machine-checked proof in Coq (induction over the step list / index arithmetic) + regenerated-fragment interface lemmas + differential correspondence",
-    ),
-}
+CHECKS = {}
+_here = os.path.dirname(os.path.abspath(__file__))
+for i in range(1, 21):
+    pid = f"C{i:02d}"
+    if os.path.exists(os.path.join(_here, f"{pid.lower()}.py")):
+        mod = importlib.import_module(f"harness.{pid.lower()}")
+        reg = getattr(mod, "REGISTRY", None)
+        if reg and reg.get("claimed", True):
+            CHECKS[pid] = reg
 
-_PENDING = "check not built yet in this session (planned per DESIGN.md section 5); not claimed until its theorems and correspondence run"
+_PENDING = "check not built yet (planned per DESIGN.md section 5); not claimed until its theorems and correspondence run"
 NOT_APPLICABLE = {f"C{i:02d}": _PENDING for i in range(1, 21) if f"C{i:02d}" not in CHECKS}
 
 NOTES = ("Technique family: machine-checked proof in Coq 8.16.1. Each check (1) regenerates Gallina fragments from /repo's working tree and rebuilds the property's theorems "
